@@ -20,7 +20,7 @@ TIERS = {
     "thorough": {"shards": 16, "n": 12000, "budget_s": 2700},
 }
 FLOOR = {"quick": 300, "thorough": 20000}
-REQUIRED_LABELS = {"quick": ["d:neg-int", "d:float-exp", "d:bool", "d:str", "d:None", "d:code", "kind:literal", "kind:union"], "thorough": []}
+REQUIRED_LABELS = {"quick": ["d:neg-int", "d:float-exp", "d:bool", "d:str", "d:None", "d:code", "kind:literal", "kind:union", "descr:long-token", "kind:undocumented-param"], "thorough": []}
 ASSUMPTIONS = [
     "descriptions are drawn from a vocabulary free of the type-hint trigger words (quantifier of C01)",
     "string defaults are non-empty and dot-free (P12 is recorded as a finding and exercised by C08/C11/C14)",
@@ -57,6 +57,7 @@ def strategy(ctx):
             gen_ir.interface("docstring", suffix=True, doc=gen_ir.mixed_descr, name_strategy=gen_ir.rich_names),
             gen_ir.wrap_boundary_interface(),
             undocumented_some(),
+            gen_ir.interface("docstring", suffix=True, max_params=3, doc=st.one_of(gen_ir.descr, gen_ir.long_token_descr())),
         ),
         st.just(0),
     )
